@@ -257,6 +257,10 @@ func (s Server) LeafSelectionQuery(ctx context.Context, req *admin.LeafSelection
 			}
 		}
 
+		if config.Values == nil {
+			// a configuration without any value is stored without a map
+			config.Values = make(map[string]*configapi.PathValue)
+		}
 		for path, value := range newChanges {
 			config.Values[path] = value
 		}
